@@ -5,7 +5,8 @@ open Sygma.C14
 
 /-- `none`|`<gas>` `:` `p`|`e`  e.g. `n:p;100:e` -/
 def parseP (s : String) : Option (PIn × Bool) :=
-  match s.splitOn ":" with
+  -- an optional third field (source domain) does not influence batching
+  match (s.splitOn ":").take 2 with
   | [g, st] => do
     let gas ← if g = "n" then some none else (g.toNat?).map some
     let ex ← if st = "p" || st = "x" then some false else if st = "e" then some true else none
@@ -48,6 +49,24 @@ def handle (op : String) (args : List String) (impl : String) : Option Verdict :
       | some bs => wraps || decide (P14 cap pend bs)
       | none => false
     return ⟨showBs m, ok, tag⟩
+  | "batchseq", [cap, tg, dels] => some <| Id.run do
+    let some cap := cap.toNat? | return bad
+    let some tg := tg.toNat? | return bad
+    let ds := dels.splitOn "|"
+    let outs := impl.splitOn "|"
+    let mut ms : List String := []
+    let mut ok := outs.length == ds.length
+    for (d, o) in ds.zip (outs ++ List.replicate ds.length "") do
+      let some psx := (items d ";").mapM parseP | return bad
+      match batchesOpt cap tg psx with
+      | none => ms := ms ++ ["err"]; ok := ok && o == "err"
+      | some bs =>
+        let pend := pending tg (psx.map (·.1))
+        ms := ms ++ [showBs bs]
+        ok := ok && (match parseBs pend o with
+          | some ibs => decide (M ≤ sumGas pend) || decide (P14 cap pend ibs)
+          | none => false)
+    return ⟨"|".intercalate ms, ok, s!"batchseq:d={min ds.length 4}"⟩
   | "submit", [cap, tg, ps] => some <| Id.run do
     let some cap := cap.toNat? | return bad
     let some tg := tg.toNat? | return bad
